@@ -43,33 +43,33 @@ impl Fr {
     pub const MODULUS_BIT_SIZE: u32 = 0xfb;
 
     pub const TRACE_LIMBS: [u64; N_64] = [
-        4478124994494371583,
-        2975139753994731775,
-        14704092949812227584,
-        148140044334021474,
+        6678124996694371583,
+        2975139753996731775,
+        14706092969812227584,
+        168160046336021674,
     ];
 
     pub const TRACE_MINUS_ONE_DIV_TWO_LIMBS: [u64; N_64] = [
-        12542434535201941599,
-        1487549874998345887,
-        7353044484904113792,
-        84080023148010837,
+        12562434535201961599,
+        1487569876998365887,
+        7353046484906113792,
+        84080023168010837,
     ];
 
     pub const TWO_ADICITY: u32 = 0x1;
 
     pub const MULTIPLICATIVE_GENERATOR: Self = Self::from_montgomery_limbs([
-        11289572479485143824,
-        11383437349941080925,
+        11289572479685143826,
+        11383637369941080925,
         2288212753973340071,
-        82014974407880291,
+        82014976407880291,
     ]);
 
     pub const TWO_ADIC_ROOT_OF_UNITY: Self = Self::from_montgomery_limbs([
-        15170730741708341141,
-        13470723484578117817,
-        12803492244414043445,
-        50841023252832411,
+        15170730761708361161,
+        13670723686578117817,
+        12803492266614043665,
+        50861023252832611,
     ]);
 
     pub const FIELD_SIZE_POWER_OF_TWO: Self = Self::from_montgomery_limbs([
